@@ -28,6 +28,7 @@ func draw(t *rapid.T) *pbt.Case {
 	g := gen.Default(str).Boost(3, "sentinel", "mark", "risleaf", "domain")
 	c := &pbt.Case{}
 	c.Spec = g.Draw(t, rapid.IntRange(1, maxB).Draw(t, "budget"))
+	gen.SprinkleEmpty(t, c.Spec)
 	c.Aux = append(c.Aux, g.Draw(t, rapid.IntRange(1, 4).Draw(t, "budget2")))
 	nodes := c.Spec.Nodes()
 	for k := 0; k < 3; k++ {
@@ -184,11 +185,11 @@ func check(c *pbt.Case, r *pbt.R) {
 
 var prop = &pbt.Prop{ID: "C02", Part: "is-transfer", Draw: draw, Check: check,
 	Valid: func(c *pbt.Case) bool {
-		if !gen.SpecRegular(c.Spec) || c.Int("hops") < 1 {
+		if !gen.SpecRegularOrEmpty(c.Spec) || c.Int("hops") < 1 {
 			return false
 		}
 		for _, a := range c.Aux {
-			if !gen.SpecRegular(a) {
+			if !gen.SpecRegularOrEmpty(a) {
 				return false
 			}
 		}
